@@ -802,7 +802,8 @@ func (l *Loader) mergeResult(fetchItem *FetchItem, res *result, items []*astjson
 			l.skipValueCompletion = true
 		}
 
-		// no data
+		// no data: dependent fetches have nothing to build their inputs from
+		l.recordErroredFetchIDLocked(fetchItem)
 		return nil
 	}
 
@@ -1355,6 +1356,8 @@ func (l *Loader) renderErrorsFailedDeps(fetchItem *FetchItem, res *result) error
 }
 
 func (l *Loader) renderErrorsFailedToFetch(fetchItem *FetchItem, res *result, reason string) error {
+	// the fetch delivered nothing: fetches that depend on it must not be sent with null-filled inputs
+	l.recordErroredFetchIDLocked(fetchItem)
 	l.recordSubgraphError(res, res.err, NewSubgraphError(res.ds, fetchItem.ResponsePath, reason, res.statusCode))
 	errorObject, err := astjson.ParseWithArena(l.jsonArena, l.renderSubgraphBaseError(res.ds, fetchItem.ResponsePath, reason))
 	if err != nil {
@@ -1375,6 +1378,7 @@ func (l *Loader) renderErrorsStatusFallback(fetchItem *FetchItem, res *result, s
 		reason += ": " + statusText
 	}
 
+	l.recordErroredFetchIDLocked(fetchItem)
 	l.recordSubgraphError(res, res.err, NewSubgraphError(res.ds, fetchItem.ResponsePath, reason, res.statusCode))
 
 	errorObject, err := astjson.ParseWithArena(l.jsonArena, fmt.Sprintf(`{"message":"%s"}`, reason))
